@@ -47,8 +47,28 @@ impl Default for SettingsSpec {
     }
 }
 
+/// A user path.  `syn::Path`'s own parser does not accept parenthesised generics
+/// (`a::Foo(A)`), which a caller can nevertheless hand to the builders (e.g. taken
+/// out of a parsed trait bound `Fn(A) -> B`); those are obtained through `syn::TraitBound`.
+/// `@empty` / `::@empty` denote the hand-built path without segments
+/// (only constructible programmatically; the `EmptySubstitutePath` error).
 pub fn path(s: &str) -> syn::Path {
-    syn::parse_str::<syn::Path>(s).unwrap_or_else(|e| panic!("harness: bad path {s}: {e}"))
+    match s.trim() {
+        "@empty" => return syn::Path { leading_colon: None, segments: Default::default() },
+        "::@empty" => {
+            return syn::Path { leading_colon: Some(Default::default()), segments: Default::default() }
+        }
+        _ => {}
+    }
+    if let Ok(p) = syn::parse_str::<syn::Path>(s) {
+        return p;
+    }
+    // syn 2 only parses `Foo(A) -> B` arguments in trait-bound position
+    match syn::parse_str::<syn::TraitBound>(s) {
+        Ok(tb) if tb.lifetimes.is_none() && matches!(tb.modifier, syn::TraitBoundModifier::None) => tb.path,
+        Ok(_) => panic!("harness: bad path {s}: not a plain path"),
+        Err(e) => panic!("harness: bad path {s}: {e}"),
+    }
 }
 pub fn type_path(s: &str) -> syn::TypePath {
     syn::parse_str::<syn::TypePath>(s).unwrap_or_else(|e| panic!("harness: bad type path {s}: {e}"))
